@@ -37,6 +37,8 @@ FUNCTIONS = [
     "ombott.router.radirouter:RouteMethod.remove",
     "ombott.router.radidict:RadiDict.get",
     "ombott.request_pkg.props_mixin:PropsMixin.method",
+    "ombott.request_pkg.request:BaseRequest.__setitem__",
+    "ombott.request_pkg.request:BaseRequest._on_env_changed",
 ]
 STUBS = []
 ASSUMPTIONS = [
@@ -44,6 +46,8 @@ ASSUMPTIONS = [
     "at the first differing position); a wildcard binding the empty string is accepted either way",
     "a request verb spelled ANY reaches the ANY handler (the statement does not forbid it)",
     "a route whose methods were all removed still is a route: 405 with an empty (or absent) Allow",
+    "when a before_request hook replaces REQUEST_METHOD (request[...] setter or request.environ), the request's method "
+    "is the one in force when routing happens, whether or not request.method was read before",
     "handlers accept **kwargs, so the C01 finding about CR in a path (parameters dropped) does not turn into a 500 here",
 ]
 OUTSIDE = [
@@ -331,13 +335,15 @@ def judge_router(app, path, verb, want):
     return None
 
 
-def judge(app, shape, tables, live, calls, verb, path, level):
-    """Compare with the expected outcome; where it depends on a wildcard binding the empty string either is accepted."""
+def judge(app, shape, tables, live, calls, verb, path, level, wire=None):
+    """Compare with the expected outcome for `verb` (the request is sent with `wire` if the application itself
+    replaces the verb before routing); where the outcome depends on a wildcard binding the empty string either is
+    accepted."""
     matched = verdicts(shape["rules"], live, path)
     strict = expected(tables, select(shape["rules"], matched, False), fold(verb))
     lenient = expected(tables, select(shape["rules"], matched, True), fold(verb))
     if level == "wsgi":
-        got = request(app, verb, path)
+        got = request(app, verb if wire is None else wire, path)
         r = judge_wsgi(got, calls, strict)
         if r and lenient != strict:
             cover("empty-wildcard-tolerated")
@@ -361,6 +367,36 @@ def make_table(shape, paths, verbs, style, level):
         calls = []
         app, tables, live = build(shape, [derived_bits(bits, r) for r in range(nroutes)], style, calls)
         return judge(app, shape, tables, live, calls, verbs[vi], paths[pi], level)
+    return q
+
+
+def make_override(shape, paths, wire_verbs, new_verbs, read_first, via):
+    """Symbolic: the method bitmap, the verb on the wire, the verb a before_request hook puts in its place (the
+    X-HTTP-Method-Override recipe) and the path index. The hook first reads request.method if read_first, then sets
+    the verb through the documented setter request[...] (via "setitem") or in request.environ (via "environ").
+    Dispatch must follow the verb in force when routing happens, i.e. the new one."""
+    nroutes = len(shape["rules"])
+
+    def q(get: bool, head: bool, post: bool, put: bool, any_: bool, wi: int, vi: int, pi: int):
+        assume(0 <= wi < len(wire_verbs) and 0 <= vi < len(new_verbs) and 0 <= pi < len(paths))
+        bits = [get, head, post, put, any_]
+        calls = []
+        app, tables, live = build(shape, [derived_bits(bits, r) for r in range(nroutes)], "upper", calls)
+        seen = []
+
+        def hook():
+            if read_first:
+                seen.append(app.request.method)
+            if via == "setitem":
+                app.request["REQUEST_METHOD"] = new_verbs[vi]
+            else:
+                app.request.environ["REQUEST_METHOD"] = new_verbs[vi]
+        app.add_hook("before_request", hook)
+        if fold(wire_verbs[wi]) != fold(new_verbs[vi]):
+            cover("verb-changed")
+        r = judge(app, shape, tables, live, calls, new_verbs[vi], paths[pi], "wsgi", wire=wire_verbs[wi])
+        return r and "sent as %s, verb set to %s by a before_request hook (%s): %s" % (
+            wire_verbs[wi], new_verbs[vi], "after reading request.method = %r" % (seen,) if read_first else "unread", r)
     return q
 
 
@@ -530,9 +566,35 @@ def verb_queries(tier):
     return out
 
 
+def override_queries(tier):
+    T = tier == "thorough"
+    wire = ("GET", "head", "FOO") if not T else ("GET", "head", "POST", "FOO")
+    new = ("get", "HEAD", "put", "FOO") if not T else ("get", "HEAD", "put", "DELETE", "any", "FOO")
+    plan = [(0, True, "setitem"), (1, False, "environ")]
+    if T:
+        plan = [(0, True, "setitem"), (0, True, "environ"), (0, False, "setitem"), (0, False, "environ"),
+                (1, True, "setitem"), (2, True, "environ")]
+    out = []
+    for si, read_first, via in plan:
+        sh = shapes(tier)[si]
+        paths = sh["paths"][:2]
+        out.append(Q("override/%s/%s-%s" % (sh["tag"], "read" if read_first else "unread", via),
+                     make_override(sh, paths, wire, new, read_first, via),
+                     "rules %s: every subset on route 0 (symbolic bitmap, other routes derived as in `table`); request sent "
+                     "with a verb in %s; a before_request hook %s and sets the verb to one in %s through %s (symbolic "
+                     "indices); path in %s; dispatch must follow the verb set by the hook; observed at Ombott.__call__"
+                     % ([render(s, sh["flavour"]) for s in sh["rules"]], list(wire),
+                        "reads request.method" if read_first else "does not read request.method", list(new),
+                        "request['REQUEST_METHOD'] = v" if via == "setitem" else "request.environ['REQUEST_METHOD'] = v",
+                        paths),
+                     timeout=200 if not T else 500, expect_cover=["200", "405", "verb-changed"], family="override",
+                     config={"shape": sh["tag"], "read_first": read_first, "via": via}))
+    return out
+
+
 def queries(tier):
     """Families interleaved, so that a run cut by the wall budget still holds queries of each family."""
-    families = [table_queries(tier), edit_queries(tier), split_queries(tier), verb_queries(tier)]
+    families = [table_queries(tier), edit_queries(tier), split_queries(tier), verb_queries(tier), override_queries(tier)]
     out = []
     while any(families):
         for fam in families:
